@@ -249,4 +249,792 @@ theorem HAInv_signposts {div : Nat → Rat} {q : Rat} (hdiv : SignpostDiv div q)
     rw [e] at this
     nlinarith
 
+
+/-- the fold of `_initial_party_coefs` over one column, for an arbitrary start -/
+def cbStep (q : Rat) (acc : Rat × Option Rat) (vx : Rat × Nat) : Rat × Option Rat :=
+  if vx.1 = 0 then acc else
+    let lo := ((vx.2 : Rat) - q) / vx.1
+    let hi := ((vx.2 : Rat) + 1 - q) / vx.1
+    (if lo > acc.1 then lo else acc.1,
+     match acc.2 with
+     | none => some hi
+     | some h => some (if hi < h then hi else h))
+
+theorem coefBounds_eq (q : Rat) (vcol : List Rat) (xcol : List Nat) :
+    coefBounds q vcol xcol = (List.zip vcol xcol).foldl (cbStep q) (0, none) := rfl
+
+theorem cb_lo (q : Rat) : ∀ (l : List (Rat × Nat)) (acc : Rat × Option Rat),
+    acc.1 ≤ (l.foldl (cbStep q) acc).1 ∧
+    (∀ vx ∈ l, vx.1 ≠ 0 → ((vx.2 : Rat) - q) / vx.1 ≤ (l.foldl (cbStep q) acc).1) ∧
+    (∀ B, acc.1 ≤ B → (∀ vx ∈ l, vx.1 ≠ 0 → ((vx.2 : Rat) - q) / vx.1 ≤ B) → (l.foldl (cbStep q) acc).1 ≤ B)
+  | [], acc => ⟨le_refl _, fun _ h => by simp at h, fun B h _ => h⟩
+  | vx :: l, acc => by
+    rw [List.foldl_cons]
+    obtain ⟨h1, h2, h3⟩ := cb_lo q l (cbStep q acc vx)
+    have hacc : acc.1 ≤ (cbStep q acc vx).1 := by
+      unfold cbStep; split
+      · exact le_refl _
+      · simp only; split <;> linarith
+    refine ⟨le_trans hacc h1, ?_, ?_⟩
+    · intro vx' hmem hne
+      rcases List.mem_cons.mp hmem with rfl | hmem
+      · refine le_trans ?_ h1
+        unfold cbStep; rw [if_neg hne]; simp only; split <;> linarith
+      · exact h2 vx' hmem hne
+    · intro B hB hall
+      apply h3 B
+      · unfold cbStep; split
+        · exact hB
+        · rename_i hne; simp only; split
+          · exact hall vx List.mem_cons_self hne
+          · exact hB
+      · intro vx' hmem hne; exact hall vx' (List.mem_cons_of_mem _ hmem) hne
+
+theorem cb_hi (q : Rat) : ∀ (l : List (Rat × Nat)) (acc : Rat × Option Rat),
+    ((l.foldl (cbStep q) acc).2 = none → acc.2 = none ∧ ∀ vx ∈ l, vx.1 = 0) ∧
+    (∀ h, (l.foldl (cbStep q) acc).2 = some h →
+      (∀ h0, acc.2 = some h0 → h ≤ h0) ∧
+      (∀ vx ∈ l, vx.1 ≠ 0 → h ≤ ((vx.2 : Rat) + 1 - q) / vx.1) ∧
+      (acc.2 = some h ∨ ∃ vx ∈ l, vx.1 ≠ 0 ∧ h = ((vx.2 : Rat) + 1 - q) / vx.1))
+  | [], acc => ⟨fun h => ⟨h, fun _ hm => by simp at hm⟩,
+      fun h hh => ⟨fun h0 h0e => by simp only [List.foldl_nil] at hh; rw [hh] at h0e; simp at h0e; linarith,
+        fun _ hm => by simp at hm, Or.inl hh⟩⟩
+  | vx :: l, acc => by
+    rw [List.foldl_cons]
+    obtain ⟨h1, h2⟩ := cb_hi q l (cbStep q acc vx)
+    by_cases hne : vx.1 = 0
+    · have hstep : cbStep q acc vx = acc := by unfold cbStep; rw [if_pos hne]
+      rw [hstep] at h1 h2 ⊢
+      refine ⟨fun hn => ⟨(h1 hn).1, fun vx' hm => ?_⟩, fun h hh => ?_⟩
+      · rcases List.mem_cons.mp hm with rfl | hm
+        · exact hne
+        · exact (h1 hn).2 vx' hm
+      · obtain ⟨a, b, c⟩ := h2 h hh
+        refine ⟨a, fun vx' hm hne' => ?_, ?_⟩
+        · rcases List.mem_cons.mp hm with rfl | hm
+          · exact absurd hne hne'
+          · exact b vx' hm hne'
+        · rcases c with c | ⟨vx', hm, c⟩
+          · exact Or.inl c
+          · exact Or.inr ⟨vx', List.mem_cons_of_mem _ hm, c⟩
+    · have hstep2 : ∃ h', (cbStep q acc vx).2 = some h' ∧ h' ≤ ((vx.2 : Rat) + 1 - q) / vx.1 ∧
+          (∀ h0, acc.2 = some h0 → h' ≤ h0) ∧
+          (acc.2 = some h' ∨ h' = ((vx.2 : Rat) + 1 - q) / vx.1) := by
+        unfold cbStep; rw [if_neg hne]; simp only
+        cases hacc : acc.2 with
+        | none => exact ⟨_, rfl, le_refl _, fun h0 h0e => by simp at h0e, Or.inr rfl⟩
+        | some h0 =>
+          simp only
+          refine ⟨_, rfl, ?_, ?_, ?_⟩
+          · split <;> linarith
+          · intro h0' h0e; simp only [Option.some.injEq] at h0e; subst h0e; split <;> linarith
+          · split
+            · exact Or.inr rfl
+            · exact Or.inl rfl
+      obtain ⟨h', hs', hle', hacc', hor'⟩ := hstep2
+      refine ⟨fun hn => ?_, fun h hh => ?_⟩
+      · have := (h1 hn).1; rw [hs'] at this; simp at this
+      · obtain ⟨a, b, c⟩ := h2 h hh
+        have hh' : h ≤ h' := a h' hs'
+        refine ⟨fun h0 h0e => le_trans hh' (hacc' h0 h0e), fun vx' hm hne' => ?_, ?_⟩
+        · rcases List.mem_cons.mp hm with rfl | hm
+          · exact le_trans hh' hle'
+          · exact b vx' hm hne'
+        · rcases c with c | ⟨vx', hm, c⟩
+          · rw [hs'] at c
+            simp only [Option.some.injEq] at c
+            subst c
+            rcases hor' with h | h
+            · exact Or.inl h
+            · exact Or.inr ⟨vx, List.mem_cons_self, hne, h⟩
+          · exact Or.inr ⟨vx', List.mem_cons_of_mem _ hm, c⟩
+
+/-- **The initial multiplier of a party is consistent with its column** whenever the column is a
+    highest-averages allocation (lower signposts below upper signposts, no seat without votes). -/
+theorem partyCoef_ok {q : Rat} (hq1 : q < 1) (vcol : List Rat) (xcol : List Nat)
+    (hnn : ∀ vx ∈ List.zip vcol xcol, 0 ≤ vx.1)
+    (hz : ∀ vx ∈ List.zip vcol xcol, vx.1 = 0 → vx.2 = 0)
+    (hcons : ∀ vx ∈ List.zip vcol xcol, ∀ vx' ∈ List.zip vcol xcol, 0 < vx.1 → 0 < vx'.1 →
+      ((vx.2 : Rat) - q) / vx.1 ≤ ((vx'.2 : Rat) + 1 - q) / vx'.1) :
+    0 < initialPartyCoef q vcol xcol ∧
+    ∀ vx ∈ List.zip vcol xcol, isRounding q (vx.1 * 1 * initialPartyCoef q vcol xcol) vx.2 := by
+  unfold initialPartyCoef
+  rw [coefBounds_eq]
+  obtain ⟨l0, l1, l2⟩ := cb_lo q (List.zip vcol xcol) (0, none)
+  obtain ⟨hn, hs⟩ := cb_hi q (List.zip vcol xcol) (0, none)
+  generalize (List.zip vcol xcol).foldl (cbStep q) (0, none) = r at *
+  obtain ⟨lo, hio⟩ := r
+  cases hio with
+  | none =>
+    simp only
+    refine ⟨by norm_num, fun vx hm => ?_⟩
+    have hv0 := (hn rfl).2 vx hm
+    rw [hv0, hz vx hm hv0]
+    refine ⟨Or.inl rfl, ?_⟩
+    simp; linarith
+  | some hi =>
+    simp only
+    obtain ⟨_, hb, hc⟩ := hs hi rfl
+    have hpos : ∀ vx ∈ List.zip vcol xcol, vx.1 ≠ 0 → 0 < vx.1 :=
+      fun vx hm hne => lt_of_le_of_ne (hnn vx hm) (Ne.symm hne)
+    have hipos : 0 < hi := by
+      rcases hc with hc | ⟨vx, hm, hne, rfl⟩
+      · simp at hc
+      · have : (0 : Rat) ≤ (vx.2 : Rat) := Nat.cast_nonneg _
+        exact div_pos (by linarith) (hpos vx hm hne)
+    have hlohi : lo ≤ hi := by
+      apply l2 hi (le_of_lt hipos)
+      intro vx hm hne
+      rcases hc with hc | ⟨vx', hm', hne', rfl⟩
+      · simp at hc
+      · exact hcons vx hm vx' hm' (hpos vx hm hne) (hpos vx' hm' hne')
+    have hlo0 : (0 : Rat) ≤ lo := l0
+    refine ⟨by linarith, fun vx hm => ?_⟩
+    by_cases hne : vx.1 = 0
+    · rw [hne, hz vx hm hne]
+      refine ⟨Or.inl rfl, ?_⟩
+      simp; linarith
+    · have hv := hpos vx hm hne
+      have h1 := l1 vx hm hne
+      have h2 := hb vx hm hne
+      rw [div_le_iff₀ hv] at h1
+      rw [le_div_iff₀ hv] at h2
+      refine ⟨Or.inr ?_, ?_⟩ <;> nlinarith
+
+
+theorem mapM_except_ok {α β ε : Type} (f : α → Except ε β) :
+    ∀ (l : List α) (out : List β), l.mapM f = .ok out →
+      out.length = l.length ∧ ∀ k (h1 : k < l.length) (h2 : k < out.length), f (l[k]) = .ok (out[k])
+  | [], out, h => by
+    simp only [List.mapM_nil] at h
+    cases h; exact ⟨rfl, fun k h1 _ => by simp at h1⟩
+  | a :: l, out, h => by
+    rw [List.mapM_cons] at h
+    cases hfa : f a with
+    | error e => rw [hfa] at h; cases h
+    | ok b =>
+      rw [hfa] at h
+      cases hl : l.mapM f with
+      | error e => rw [hl] at h; cases h
+      | ok bs =>
+        rw [hl] at h
+        cases h
+        obtain ⟨ih1, ih2⟩ := mapM_except_ok f l bs hl
+        refine ⟨by simp [ih1], ?_⟩
+        intro k h1 h2
+        cases k with
+        | zero => simpa using hfa
+        | succ k => simpa using ih2 k (by simpa using h1) (by simpa using h2)
+
+theorem sumRat_acc : ∀ (l : List Rat) (a : Rat), l.foldl (· + ·) a = a + sumRat l
+  | [], a => by simp [sumRat]
+  | x :: l, a => by
+    unfold sumRat
+    rw [List.foldl_cons, List.foldl_cons, sumRat_acc l (a + x), sumRat_acc l (0 + x)]
+    ring
+
+theorem sumRat_cons (x : Rat) (l : List Rat) : sumRat (x :: l) = x + sumRat l := by
+  unfold sumRat; rw [List.foldl_cons, sumRat_acc]; unfold sumRat; ring
+
+theorem sumRat_nonneg : ∀ (l : List Rat), (∀ a ∈ l, 0 ≤ a) → 0 ≤ sumRat l
+  | [], _ => by simp [sumRat]
+  | x :: l, h => by
+    rw [sumRat_cons]
+    have := sumRat_nonneg l (fun a ha => h a (List.mem_cons_of_mem _ ha))
+    have := h x List.mem_cons_self
+    linarith
+
+theorem sumRat_zero : ∀ (l : List Rat), (∀ a ∈ l, a = 0) → sumRat l = 0
+  | [], _ => by simp [sumRat]
+  | x :: l, h => by
+    rw [sumRat_cons, sumRat_zero l (fun a ha => h a (List.mem_cons_of_mem _ ha)), h x List.mem_cons_self]; simp
+
+theorem sumRat_pos : ∀ (l : List Rat), (∀ a ∈ l, 0 ≤ a) → (∃ a ∈ l, 0 < a) → 0 < sumRat l
+  | [], _, h => by obtain ⟨a, ha, _⟩ := h; simp at ha
+  | x :: l, hnn, ⟨a, ha, hpos⟩ => by
+    rw [sumRat_cons]
+    have hl := sumRat_nonneg l (fun a ha => hnn a (List.mem_cons_of_mem _ ha))
+    have hx := hnn x List.mem_cons_self
+    rcases List.mem_cons.mp ha with rfl | ha
+    · linarith
+    · have := sumRat_pos l (fun a ha => hnn a (List.mem_cons_of_mem _ ha)) ⟨a, ha, hpos⟩
+      linarith
+
+theorem mem_colOf {V : Mat Rat} {j : Nat} {a : Rat} (h : a ∈ colOf V j) : ∃ i < V.length, a = vget V i j := by
+  obtain ⟨i, hi, rfl⟩ := List.mem_iff_getElem.mp h
+  have hi' : i < V.length := by simpa [colOf] using hi
+  refine ⟨i, hi', ?_⟩
+  rw [← getD_colOf, List.getD_eq_getElem?_getD, List.getElem?_eq_getElem hi]; rfl
+
+theorem mem_zip_index {α β : Type} {l1 : List α} {l2 : List β} {p : α × β} (h : p ∈ List.zip l1 l2) :
+    ∃ i, ∃ (h1 : i < l1.length) (h2 : i < l2.length), p = (l1[i], l2[i]) := by
+  obtain ⟨i, hi, rfl⟩ := List.mem_iff_getElem.mp h
+  have hi' : i < l1.length ∧ i < l2.length := by simpa [List.length_zip] using hi
+  exact ⟨i, hi'.1, hi'.2, by simp [List.getElem_zip]⟩
+
+
+theorem votes_nonneg_of_ok {V : Mat Rat} (h : votesOk V = true) : ∀ i j, 0 ≤ vget V i j := by
+  intro i j
+  simp only [votesOk, Bool.and_eq_true, List.all_eq_true, decide_eq_true_eq] at h
+  unfold vget
+  simp only [List.getD_eq_getElem?_getD]
+  cases hi : V[i]? with
+  | none => simp
+  | some r =>
+    have hr : r ∈ V := List.mem_of_getElem? hi
+    simp only [Option.getD_some]
+    cases hj : r[j]? with
+    | none => simp
+    | some v => simpa using h.2 r hr v (List.mem_of_getElem? hj)
+
+theorem hasVotes_exists {V : Mat Rat} (hs : shapeOk V V.length (nCols V) = true) (h : hasVotes V = true) :
+    ∃ i < V.length, ∃ j < nCols V, 0 < vget V i j := by
+  simp only [hasVotes, List.any_eq_true, decide_eq_true_eq] at h
+  obtain ⟨r, hr, v, hv, hpos⟩ := h
+  obtain ⟨i, hi, rfl⟩ := List.mem_iff_getElem.mp hr
+  obtain ⟨j, hj, rfl⟩ := List.mem_iff_getElem.mp hv
+  have hlen : (V[i]).length = nCols V := ((shapeOk_iff V _ _).mp hs).2 _ hr
+  refine ⟨i, hi, j, by omega, ?_⟩
+  unfold vget
+  simp only [List.getD_eq_getElem?_getD, List.getElem?_eq_getElem hi, Option.getD_some,
+    List.getElem?_eq_getElem hj]
+  exact hpos
+
+/-- **The state before the loop is consistent.**  For a rectangular non-negative vote matrix with at least one
+    vote and a divisor rule in signpost form, the initial party-proportional solution together with the initial
+    multipliers satisfies the loop invariant. -/
+theorem initState_ok {div : Nat → Rat} {q : Rat} (hdiv : SignpostDiv div q) {V : Mat Rat} {total : Nat} {s0 : State}
+    (hV : votesOk V = true) (hpos : hasVotes V = true) (h : initState div q V total = .ok s0) :
+    stateOk q V s0 = true := by
+  have hshapeV : shapeOk V V.length (nCols V) = true := by
+    simp only [votesOk, Bool.and_eq_true] at hV; exact hV.1
+  have hnn := votes_nonneg_of_ok hV
+  unfold initState at h
+  cases hx0 : initialSolution div V total with
+  | error e => rw [hx0] at h; simp at h
+  | ok x0 =>
+    rw [hx0] at h
+    simp only [Except.ok.injEq] at h
+    subst h
+    unfold initialSolution at hx0
+    cases hps : partySeats div V total with
+    | error e => rw [hps] at hx0; simp at hx0
+    | ok ps =>
+      rw [hps] at hx0
+      simp only at hx0
+      cases hcols : (List.range (nCols V)).mapM (fun j => initialColumn div V j (ps.getD j 0)) with
+      | error e => rw [hcols] at hx0; simp at hx0
+      | ok cols =>
+        rw [hcols] at hx0
+        simp only [Except.ok.injEq] at hx0
+        obtain ⟨hclen, hcel⟩ := mapM_except_ok _ _ _ hcols
+        rw [List.length_range] at hclen
+        have hcol : ∀ j < nCols V, initialColumn div V j (ps.getD j 0) = .ok (cols.getD j []) := by
+          intro j hj
+          have := hcel j (by simpa using hj) (by omega)
+          simp only [List.getElem_range] at this
+          rw [this, List.getD_eq_getElem?_getD, List.getElem?_eq_getElem (by omega)]; rfl
+        -- cells of the initial solution
+        have hmget : ∀ i < V.length, ∀ j, mget x0 i j = (cols.getD j []).getD i 0 := by
+          intro i hi j
+          rw [← hx0]
+          unfold mget
+          rw [getD_map_range _ _ _ _ hi]
+          simp only [List.getD_eq_getElem?_getD, List.getElem?_map]
+          cases cols[j]? <;> simp
+        have hshape : shapeOk x0 V.length (nCols V) = true := by
+          rw [shapeOk_iff, ← hx0]
+          refine ⟨by simp, ?_⟩
+          intro r hr
+          obtain ⟨i, _, rfl⟩ := List.mem_map.mp hr
+          simp [hclen]
+        -- party level: a party without votes has no seat
+        have hps0 : ∀ j < nCols V, (∀ i < V.length, vget V i j = 0) → ps.getD j 0 = 0 := by
+          intro j hj hall
+          unfold partySeats at hps
+          cases hr : haEvaluate div (colTotals V) total with
+          | error e => rw [hr] at hps; simp at hps
+          | ok r =>
+            rw [hr] at hps
+            simp only at hps
+            split at hps
+            · simp at hps
+            · rename_i hnt
+              simp only [Except.ok.injEq] at hps
+              have hctl : (colTotals V).length = nCols V := by simp [colTotals]
+              have hct : ∀ j < nCols V, (colTotals V).getD j 0 = sumRat (colOf V j) := by
+                intro j hj; unfold colTotals; rw [getD_map_range _ _ _ _ hj]
+              have hctnn : ∀ k, 0 ≤ (colTotals V).getD k 0 := by
+                intro k
+                by_cases hk : k < nCols V
+                · rw [hct k hk]
+                  apply sumRat_nonneg
+                  intro a ha
+                  obtain ⟨i, _, rfl⟩ := mem_colOf ha
+                  exact hnn i k
+                · rw [List.getD_eq_getElem?_getD, List.getElem?_eq_none (by omega)]; simp
+              have hinv := haEvaluate_spread_inv hdiv hctnn hr
+              have htn : r.tie = none := by
+                cases ht : r.tie with
+                | none => rfl
+                | some bc => rw [ht] at hnt; simp at hnt
+              rw [htn] at hinv
+              simp only [hctl] at hinv
+              rw [hps] at hinv
+              obtain ⟨i0, hi0, j0, hj0, hp0⟩ := hasVotes_exists hshapeV hpos
+              apply HAInv_zero_seats hdiv hinv.2 ⟨j0, hj0, ?_⟩ hj
+              · rw [hct j hj]
+                apply sumRat_zero
+                intro a ha
+                obtain ⟨i, hi, rfl⟩ := mem_colOf ha
+                exact hall i hi
+              · rw [hct j0 hj0]
+                apply sumRat_pos
+                · intro a ha
+                  obtain ⟨i, _, rfl⟩ := mem_colOf ha
+                  exact hnn i j0
+                · refine ⟨vget V i0 j0, ?_, hp0⟩
+                  rw [← getD_colOf, List.getD_eq_getElem?_getD,
+                    List.getElem?_eq_getElem (by rw [length_colOf]; exact hi0)]
+                  exact List.getElem_mem _
+        -- column level
+        have hcolfacts : ∀ j < nCols V,
+            0 < initialPartyCoef q (colOf V j) (x0.map (fun r => r.getD j 0)) ∧
+            ∀ i < V.length, isRounding q (vget V i j * 1 *
+              initialPartyCoef q (colOf V j) (x0.map (fun r => r.getD j 0))) (mget x0 i j) := by
+          intro j hj
+          obtain ⟨hlenc, hinv⟩ := initialColumn_inv hdiv hnn (hcol j hj)
+          have hxcol : ∀ i (h : i < (x0.map (fun r => r.getD j 0)).length),
+              (x0.map (fun r => r.getD j 0))[i] = mget x0 i j := by
+            intro i h
+            simp only [List.getElem_map]
+            unfold mget
+            have : i < x0.length := by simpa using h
+            rw [List.getD_eq_getElem?_getD (l := x0), List.getElem?_eq_getElem this]; rfl
+          have hx0len : x0.length = V.length := ((shapeOk_iff _ _ _).mp hshape).1
+          have hmem : ∀ vx ∈ List.zip (colOf V j) (x0.map (fun r => r.getD j 0)),
+              ∃ i < V.length, vx = (vget V i j, mget x0 i j) := by
+            intro vx hvx
+            obtain ⟨i, h1, h2, rfl⟩ := mem_zip_index hvx
+            have hi : i < V.length := by rw [length_colOf] at h1; exact h1
+            refine ⟨i, hi, ?_⟩
+            rw [hxcol i h2]
+            congr 1
+            rw [← getD_colOf, List.getD_eq_getElem?_getD, List.getElem?_eq_getElem h1]; rfl
+          have hzero : ∀ i < V.length, vget V i j = 0 → mget x0 i j = 0 := by
+            intro i hi hv
+            rw [hmget i hi]
+            by_cases hex : ∃ k < V.length, 0 < vget V k j
+            · exact HAInv_zero_seats hdiv hinv hex hi hv
+            · have hall : ∀ k < V.length, vget V k j = 0 := by
+                intro k hk
+                by_contra hne
+                exact hex ⟨k, hk, lt_of_le_of_ne (hnn k j) (Ne.symm hne)⟩
+              have hk0 := hps0 j hj hall
+              have := hcol j hj
+              rw [hk0] at this
+              simp only [initialColumn, if_true, Except.ok.injEq] at this
+              rw [← this, getD_map_const_zero]
+          obtain ⟨hc1, hc2⟩ := partyCoef_ok hdiv.q_lt_one (colOf V j) (x0.map (fun r => r.getD j 0))
+            (fun vx hvx => by obtain ⟨i, _, rfl⟩ := hmem vx hvx; exact hnn i j)
+            (fun vx hvx hv => by obtain ⟨i, hi, rfl⟩ := hmem vx hvx; exact hzero i hi hv)
+            (fun vx hvx vx' hvx' hp hp' => by
+              obtain ⟨i, hi, rfl⟩ := hmem vx hvx
+              obtain ⟨k, hk, rfl⟩ := hmem vx' hvx'
+              simp only at hp hp' ⊢
+              rw [hmget i hi, hmget k hk]
+              exact HAInv_signposts hdiv hinv hi hk hp hp')
+          refine ⟨hc1, fun i hi => ?_⟩
+          have hin : (vget V i j, mget x0 i j) ∈ List.zip (colOf V j) (x0.map (fun r => r.getD j 0)) := by
+            rw [List.mem_iff_getElem]
+            have hl : i < (List.zip (colOf V j) (x0.map (fun r => r.getD j 0))).length := by
+              simp [List.length_zip, length_colOf, hx0len, hi]
+            refine ⟨i, hl, ?_⟩
+            rw [List.getElem_zip, hxcol]
+            congr 1
+            rw [← getD_colOf, List.getD_eq_getElem?_getD, List.getElem?_eq_getElem (by rw [length_colOf]; exact hi)]
+            rfl
+          exact hc2 _ hin
+        -- assemble
+        rw [stateOk]
+        simp only [Bool.and_eq_true, allN_iff, decide_eq_true_eq]
+        refine ⟨⟨⟨hshape, ?_⟩, ?_⟩, ?_⟩
+        · intro i hi
+          simp only [List.getD_eq_getElem?_getD, List.getElem?_map, List.getElem?_eq_getElem hi]
+          simp
+        · intro j hj
+          simp only [initialPartyCoefs]
+          rw [getD_map_range _ _ _ _ hj]
+          exact (hcolfacts j hj).1
+        · intro i hi j hj
+          have := (hcolfacts j hj).2 i hi
+          unfold quot
+          simp only [initialPartyCoefs]
+          rw [getD_map_range _ _ _ _ hj]
+          have hdc : (V.map (fun _ => (1 : Rat))).getD i 0 = 1 := by
+            simp only [List.getD_eq_getElem?_getD, List.getElem?_map, List.getElem?_eq_getElem hi]; simp
+          rw [hdc]
+          exact this
+
+end VL.Biprop
+
+namespace VL.Biprop
+open Finset
+
+/-- seats handed out by a highest-averages evaluation, a `Tie` key counting with its multiplicity -/
+def HARes.allocated (r : HARes) : Nat :=
+  r.seats.sum + (match r.tie with | none => 0 | some (_, c) => c)
+
+theorem maxRat_none : ∀ (l : List Rat), maxRat l = none → l = []
+  | [], _ => rfl
+  | x :: xs, h => by simp only [maxRat] at h; split at h <;> simp at h
+
+theorem maxRat_mem : ∀ (l : List Rat) (mx : Rat), maxRat l = some mx → mx ∈ l
+  | [], _, h => by simp [maxRat] at h
+  | x :: xs, mx, h => by
+    simp only [maxRat] at h
+    cases hm : maxRat xs with
+    | none => rw [hm] at h; simp only [Option.some.injEq] at h; rw [← h]; exact List.mem_cons_self
+    | some y =>
+      rw [hm] at h
+      simp only [Option.some.injEq] at h
+      have := maxRat_mem xs y hm
+      rw [← h]; split
+      · exact List.mem_cons_of_mem _ this
+      · exact List.mem_cons_self
+
+theorem filter_range_length (p : Nat → Bool) : ∀ L : Nat,
+    ((List.range L).filter p).length = sumN (fun k => if p k then 1 else 0) L
+  | 0 => by simp [sumN]
+  | L+1 => by
+    rw [List.range_succ, List.filter_append, List.length_append, filter_range_length p L, sumN]
+    by_cases h : p L = true <;> simp [h]
+
+theorem sum_eq_sumN (l : List Nat) : l.sum = sumN (fun k => l.getD k 0) l.length := (sumN_getD l).symm
+
+theorem haLoop_total {div : Nat → Rat} {votes : List Rat} (hne : votes ≠ []) :
+    ∀ (fuel rem : Nat) (seats : List Nat), seats.length = votes.length → rem ≤ fuel →
+      (haLoop div votes fuel rem seats).allocated = seats.sum + rem ∧
+      ∀ b c, (haLoop div votes fuel rem seats).tie = some (b, c) →
+        c ≤ b.length ∧ b.Nodup ∧ ∀ k ∈ b, k < votes.length
+  | 0, rem, seats, _, hrem => by
+    simp only [haLoop, HARes.allocated]
+    exact ⟨by omega, fun b c h => by simp at h⟩
+  | fuel+1, rem, seats, hlen, hrem => by
+    simp only [haLoop]
+    split
+    · rename_i h0
+      simp only [HARes.allocated]
+      exact ⟨by omega, fun b c h => by simp at h⟩
+    · rename_i h0
+      have hql : (List.zipWith (fun v s => v / div s) votes seats).length = votes.length := by
+        simp [List.length_zipWith, hlen]
+      cases hmx : maxRat (List.zipWith (fun v s => v / div s) votes seats) with
+      | none =>
+        exfalso
+        have := maxRat_none _ hmx
+        have h2 : (List.zipWith (fun v s => v / div s) votes seats).length = 0 := by rw [this]; rfl
+        rw [hql] at h2
+        exact hne (List.length_eq_zero_iff.mp h2)
+      | some mx =>
+        simp only
+        have hbl : ((List.range (List.zipWith (fun v s => v / div s) votes seats).length).filter
+            (fun k => (List.zipWith (fun v s => v / div s) votes seats).getD k 0 == mx)).length
+            = sumN (fun k => if ((List.zipWith (fun v s => v / div s) votes seats).getD k 0 == mx) then 1 else 0)
+                votes.length := by
+          rw [filter_range_length, hql]
+        split
+        · rename_i hgt
+          simp only [HARes.allocated]
+          refine ⟨trivial, ?_⟩
+          intro b c h
+          simp only [Option.some.injEq, Prod.mk.injEq] at h
+          obtain ⟨rfl, rfl⟩ := h
+          refine ⟨by omega, List.Nodup.filter _ List.nodup_range, ?_⟩
+          intro k hk
+          have := (List.mem_filter.mp hk).1
+          rw [List.mem_range, hql] at this
+          exact this
+        · rename_i hle
+          have hb1 : 1 ≤ ((List.range (List.zipWith (fun v s => v / div s) votes seats).length).filter
+              (fun k => (List.zipWith (fun v s => v / div s) votes seats).getD k 0 == mx)).length := by
+            obtain ⟨k, hk, hkeq⟩ := List.mem_iff_getElem.mp (maxRat_mem _ _ hmx)
+            apply List.length_pos_of_mem (a := k)
+            rw [List.mem_filter, List.mem_range]
+            refine ⟨hk, ?_⟩
+            rw [List.getD_eq_getElem?_getD, List.getElem?_eq_getElem hk]
+            simpa using hkeq
+          have hlen' : (List.zipWith (fun s qv => if qv == mx then s + 1 else s) seats
+              (List.zipWith (fun v s => v / div s) votes seats)).length = votes.length := by
+            simp [List.length_zipWith, hlen]
+          obtain ⟨ih1, ih2⟩ := haLoop_total hne fuel
+            (rem - ((List.range (List.zipWith (fun v s => v / div s) votes seats).length).filter
+              (fun k => (List.zipWith (fun v s => v / div s) votes seats).getD k 0 == mx)).length)
+            _ hlen' (by omega)
+          refine ⟨?_, ih2⟩
+          rw [ih1]
+          have hsum : (List.zipWith (fun s qv => if qv == mx then s + 1 else s) seats
+              (List.zipWith (fun v s => v / div s) votes seats)).sum
+              = seats.sum + ((List.range (List.zipWith (fun v s => v / div s) votes seats).length).filter
+              (fun k => (List.zipWith (fun v s => v / div s) votes seats).getD k 0 == mx)).length := by
+            rw [hbl, sum_eq_sumN, hlen', sum_eq_sumN seats, hlen, ← sumN_add]
+            apply sumN_congr
+            intro k hk
+            rw [getD_zipWith _ _ _ _ 0 0 0 (by omega) (by omega)]
+            split <;> simp
+          rw [hsum]
+          omega
+
+theorem haLoop_len (div : Nat → Rat) (votes : List Rat) : ∀ (fuel rem : Nat) (seats : List Nat),
+    seats.length = votes.length → (haLoop div votes fuel rem seats).seats.length = votes.length
+  | 0, _, _, h => by simpa [haLoop] using h
+  | fuel+1, rem, seats, h => by
+    simp only [haLoop]
+    split
+    · exact h
+    · split
+      · exact h
+      · split
+        · exact h
+        · apply haLoop_len div votes fuel
+          simp [List.length_zipWith, h]
+
+theorem sumN_contains (t : List Nat) (L : Nat) (hnd : t.Nodup) (hlt : ∀ k ∈ t, k < L) :
+    sumN (fun i => if t.contains i then 1 else 0) L = t.length := by
+  induction t with
+  | nil => simp [sumN_zero]
+  | cons a t ih =>
+    have hnd' := List.nodup_cons.mp hnd
+    have : ∀ i, (if (a :: t).contains i then 1 else 0) = (if a = i then 1 else 0) + (if t.contains i then 1 else 0) := by
+      intro i
+      by_cases hai : a = i
+      · subst hai
+        simp [hnd'.1]
+      · have : ¬ i = a := fun h => hai h.symm
+        simp [this, hai]
+    rw [sumN_congr (fun k _ => this k), sumN_add, sumN_single L a (hlt a List.mem_cons_self),
+      ih hnd'.2 (fun k hk => hlt k (List.mem_cons_of_mem _ hk))]
+    simp; omega
+
+/-- a per-party allocation hands out exactly the party's seats -/
+theorem initialColumn_sum {div : Nat → Rat} {V : Mat Rat} {j k : Nat} {c : List Nat}
+    (h : initialColumn div V j k = .ok c) : c.sum = k := by
+  unfold initialColumn at h
+  split at h
+  · rename_i hk
+    simp only [Except.ok.injEq] at h
+    rw [← h, hk]
+    induction V with
+    | nil => rfl
+    | cons r V ih => simp
+  · cases hr : haEvaluate div (colOf V j) k with
+    | error e => rw [hr] at h; simp at h
+    | ok r =>
+      rw [hr] at h
+      simp only [Except.ok.injEq] at h
+      unfold haEvaluate at hr
+      split at hr
+      · simp at hr
+      · rename_i hcond
+        simp only [Except.ok.injEq] at hr
+        have hne : colOf V j ≠ [] := by
+          intro he; rw [he] at hcond; simp at hcond
+        obtain ⟨htot, htie⟩ := haLoop_total (div := div) hne k k ((colOf V j).map fun _ => 0) (by simp) (le_refl _)
+        rw [hr] at htot htie
+        have hz : ((colOf V j).map fun _ => (0 : Nat)).sum = 0 := by
+          generalize colOf V j = l
+          induction l with
+          | nil => rfl
+          | cons a l ih => simp
+        rw [hz] at htot
+        cases ht : r.tie with
+        | none =>
+          rw [ht] at h
+          simp only at h
+          simp only [HARes.allocated, ht] at htot
+          rw [← h]; omega
+        | some bc =>
+          obtain ⟨b, cnt⟩ := bc
+          rw [ht] at h
+          simp only at h
+          simp only [HARes.allocated, ht] at htot
+          obtain ⟨hc, hnd, hlt⟩ := htie b cnt ht
+          rw [← h]
+          unfold tieSpread
+          have hseatlen : r.seats.length = (colOf V j).length := by
+            have := (haLoop_len div (colOf V j) k k ((colOf V j).map fun _ => 0) (by simp))
+            rw [hr] at this; exact this
+          rw [sum_eq_sumN]
+          simp only [List.length_map, List.length_range]
+          rw [sumN_congr (fun i hi => getD_map_range _ _ i 0 hi), sumN_add, ← sum_eq_sumN,
+            sumN_contains (b.take cnt) _ (List.Nodup.sublist (List.take_sublist _ _) hnd)
+              (fun k hk => by rw [hseatlen]; exact hlt k (List.mem_of_mem_take hk))]
+          rw [List.length_take]
+          omega
+
+end VL.Biprop
+
+namespace VL.Biprop
+open Finset
+
+theorem haEvaluate_total {div : Nat → Rat} {votes : List Rat} {n : Nat} {r : HARes}
+    (h : haEvaluate div votes n = .ok r) : r.allocated = n := by
+  unfold haEvaluate at h
+  split at h
+  · simp at h
+  · rename_i hcond
+    simp only [Except.ok.injEq] at h
+    have hne : votes ≠ [] := by intro he; rw [he] at hcond; simp at hcond
+    have := (haLoop_total (div := div) hne n n (votes.map fun _ => 0) (by simp) (le_refl _)).1
+    rw [h] at this
+    have hz : (votes.map fun _ => (0 : Nat)).sum = 0 := by
+      induction votes with
+      | nil => rfl
+      | cons a l ih => simp
+    omega
+
+/-- the upper apportionment hands out exactly `total` seats -/
+theorem partySeats_total {div : Nat → Rat} {V : Mat Rat} {total : Nat} {ps : List Nat}
+    (h : partySeats div V total = .ok ps) : ps.sum = total ∧ ps.length = nCols V := by
+  unfold partySeats at h
+  cases hr : haEvaluate div (colTotals V) total with
+  | error e => rw [hr] at h; simp at h
+  | ok r =>
+    rw [hr] at h
+    simp only at h
+    split at h
+    · simp at h
+    · rename_i hnt
+      simp only [Except.ok.injEq] at h
+      have htot := haEvaluate_total hr
+      have htn : r.tie = none := by
+        cases ht : r.tie with
+        | none => rfl
+        | some bc => rw [ht] at hnt; simp at hnt
+      simp only [HARes.allocated, htn] at htot
+      refine ⟨by rw [← h]; omega, ?_⟩
+      unfold haEvaluate at hr
+      split at hr
+      · simp at hr
+      · simp only [Except.ok.injEq] at hr
+        have := haLoop_len div (colTotals V) total total ((colTotals V).map fun _ => 0) (by simp)
+        rw [hr, h] at this
+        rw [this]; simp [colTotals]
+
+theorem districtSeats_total {div : Nat → Rat} {V : Mat Rat} {total : Nat} {tgt : List Nat}
+    (h : districtSeats div V total = .ok tgt) : tgt.sum = total ∧ tgt.length = V.length := by
+  unfold districtSeats at h
+  cases hr : haEvaluate div (rowTotals V) total with
+  | error e => rw [hr] at h; simp at h
+  | ok r =>
+    rw [hr] at h
+    simp only at h
+    split at h
+    · simp at h
+    · rename_i hnt
+      simp only [Except.ok.injEq] at h
+      have htot := haEvaluate_total hr
+      have htn : r.tie = none := by
+        cases ht : r.tie with
+        | none => rfl
+        | some bc => rw [ht] at hnt; simp at hnt
+      simp only [HARes.allocated, htn] at htot
+      refine ⟨by rw [← h]; omega, ?_⟩
+      unfold haEvaluate at hr
+      split at hr
+      · simp at hr
+      · simp only [Except.ok.injEq] at hr
+        have := haLoop_len div (rowTotals V) total total ((rowTotals V).map fun _ => 0) (by simp)
+        rw [hr, h] at this
+        rw [this]; simp [rowTotals]
+
+/-- **Party totals of the initial solution are the upper apportionment.** -/
+theorem initialSolution_cols {div : Nat → Rat} {V : Mat Rat} {total : Nat} {x0 : Mat Nat} {ps : List Nat}
+    (hps : partySeats div V total = .ok ps) (h : initialSolution div V total = .ok x0) :
+    ∀ j < nCols V, ∑ i ∈ range V.length, mget x0 i j = ps.getD j 0 := by
+  unfold initialSolution at h
+  rw [hps] at h
+  simp only at h
+  cases hcols : (List.range (nCols V)).mapM (fun j => initialColumn div V j (ps.getD j 0)) with
+  | error e => rw [hcols] at h; simp at h
+  | ok cols =>
+    rw [hcols] at h
+    simp only [Except.ok.injEq] at h
+    obtain ⟨hclen, hcel⟩ := mapM_except_ok _ _ _ hcols
+    rw [List.length_range] at hclen
+    intro j hj
+    have hcol : initialColumn div V j (ps.getD j 0) = .ok (cols.getD j []) := by
+      have := hcel j (by simpa using hj) (by omega)
+      simp only [List.getElem_range] at this
+      rw [this, List.getD_eq_getElem?_getD, List.getElem?_eq_getElem (by omega)]; rfl
+    have hsum := initialColumn_sum hcol
+    have hlen : (cols.getD j []).length = V.length := by
+      unfold initialColumn at hcol
+      split at hcol
+      · simp only [Except.ok.injEq] at hcol; rw [← hcol]; simp
+      · cases hr : haEvaluate div (colOf V j) (ps.getD j 0) with
+        | error e => rw [hr] at hcol; simp at hcol
+        | ok r =>
+          rw [hr] at hcol
+          simp only [Except.ok.injEq] at hcol
+          unfold haEvaluate at hr
+          split at hr
+          · simp at hr
+          · simp only [Except.ok.injEq] at hr
+            have hl := haLoop_len div (colOf V j) (ps.getD j 0) (ps.getD j 0) ((colOf V j).map fun _ => 0) (by simp)
+            rw [hr, length_colOf] at hl
+            rw [← hcol]
+            cases r.tie with
+            | none => exact hl
+            | some bc => obtain ⟨b, c⟩ := bc; simp [tieSpread, hl]
+    rw [← hsum, ← sumN_eq_sum, sum_eq_sumN, hlen]
+    apply sumN_congr
+    intro i hi
+    rw [← h]
+    unfold mget
+    rw [getD_map_range _ _ _ _ hi]
+    simp only [List.getD_eq_getElem?_getD, List.getElem?_map]
+    cases cols[j]? <;> simp
+
+end VL.Biprop
+
+namespace VL.Biprop
+
+/-- a tie-free highest-averages result is a divisor-method apportionment in the textbook sense: a common
+    multiplier makes every seat count a signpost rounding of votes × multiplier -/
+theorem haEvaluate_divisor_method {div : Nat → Rat} {q : Rat} (hdiv : SignpostDiv div q) {votes : List Rat}
+    (hv : ∀ k, 0 ≤ votes.getD k 0) (hpos : ∃ k < votes.length, 0 < votes.getD k 0) {n : Nat} {r : HARes}
+    (h : haEvaluate div votes n = .ok r) (ht : r.tie = none) :
+    r.seats.sum = n ∧ ∃ c : Rat, 0 < c ∧
+      ∀ k < votes.length, isRounding q (votes.getD k 0 * c) (r.seats.getD k 0) := by
+  have htot := haEvaluate_total h
+  simp only [HARes.allocated, ht] at htot
+  refine ⟨by omega, ?_⟩
+  have hinv := haEvaluate_spread_inv hdiv hv h
+  rw [ht] at hinv
+  simp only at hinv
+  obtain ⟨hlen, hinv⟩ := hinv
+  have hmem : ∀ vx ∈ List.zip votes r.seats, ∃ i < votes.length, vx = (votes.getD i 0, r.seats.getD i 0) := by
+    intro vx hvx
+    obtain ⟨i, h1, h2, rfl⟩ := mem_zip_index hvx
+    refine ⟨i, h1, ?_⟩
+    simp [List.getD_eq_getElem?_getD, List.getElem?_eq_getElem h1, List.getElem?_eq_getElem h2]
+  obtain ⟨hc1, hc2⟩ := partyCoef_ok hdiv.q_lt_one votes r.seats
+    (fun vx hvx => by obtain ⟨i, _, rfl⟩ := hmem vx hvx; exact hv i)
+    (fun vx hvx hz => by
+      obtain ⟨i, hi, rfl⟩ := hmem vx hvx
+      exact HAInv_zero_seats hdiv hinv hpos hi hz)
+    (fun vx hvx vx' hvx' hp hp' => by
+      obtain ⟨i, hi, rfl⟩ := hmem vx hvx
+      obtain ⟨k, hk, rfl⟩ := hmem vx' hvx'
+      exact HAInv_signposts hdiv hinv hi hk hp hp')
+  refine ⟨_, hc1, fun k hk => ?_⟩
+  have hin : (votes.getD k 0, r.seats.getD k 0) ∈ List.zip votes r.seats := by
+    rw [List.mem_iff_getElem]
+    refine ⟨k, by simp [List.length_zip, hlen, hk], ?_⟩
+    simp [List.getElem_zip, List.getD_eq_getElem?_getD, List.getElem?_eq_getElem hk,
+      List.getElem?_eq_getElem (show k < r.seats.length by omega)]
+  have := hc2 _ hin
+  simpa using this
+
 end VL.Biprop
